@@ -15,16 +15,17 @@ type GuardRule struct {
 	Type  string // e.g. "Buffer"
 	Field string
 	Mu    string
-	// ReadFree: reads need no lock (e.g. written only before publication)
+	// WriteOnly: reads of the field cell itself need no lock (written only before publication or
+	// inside the locked lazy initialiser); objects reached through it are still fully guarded
 	WriteOnly bool
 }
 
 var guardTable = []GuardRule{
 	{Type: "Buffer", Field: "buffer", Mu: "mutex"},
 	{Type: "Buffer", Field: "offset", Mu: "mutex"},
-	{Type: "Buffer", Field: "consumers", Mu: "mutex"},
+	{Type: "Buffer", Field: "consumers", Mu: "mutex", WriteOnly: true},
 	{Type: "Buffer", Field: "cleaner", Mu: "mutex"},
-	{Type: "Buffer", Field: "done", Mu: "mutex"},
+	{Type: "Buffer", Field: "done", Mu: "mutex", WriteOnly: true},
 	{Type: "consumer", Field: "offset", Mu: "mutex"},
 	{Type: "consumer", Field: "done", Mu: "mutex"},
 	{Type: "Channel", Field: "buffer", Mu: "mutex"},
@@ -34,7 +35,7 @@ var guardTable = []GuardRule{
 	{Type: "Workers", Field: "count", Mu: "mutex"},
 	{Type: "Workers", Field: "target", Mu: "mutex"},
 	{Type: "Workers", Field: "queue", Mu: "mutex"},
-	{Type: "Workers", Field: "cond", Mu: "mutex"},
+	{Type: "Workers", Field: "cond", Mu: "mutex", WriteOnly: true},
 	{Type: "Worker", Field: "wg", Mu: "mu"},
 	{Type: "Worker", Field: "stop", Mu: "mu", WriteOnly: true},
 	{Type: "Worker", Field: "done", Mu: "mu", WriteOnly: true},
@@ -156,8 +157,14 @@ func (e *Engine) checkObjGuard(c *Config, o *Object, write bool) {
 	e.checkGuardSpec(c, o.Guard, write, TS.True)
 }
 
+// constructors write the fields of an object that is not yet published
+var guardExemptFuncs = map[string]bool{"NewConsumer": true, "NewChannel": true, "NewChanPubSub": true, "NewChanCaster": true}
+
 func (e *Engine) checkGuardSpec(c *Config, gs *GuardSpec, write bool, under *Term) {
 	if !write && gs.WriteOnly {
+		return
+	}
+	if len(c.stack) > 0 && guardExemptFuncs[c.top().fn.Name()] && !strings.HasPrefix(gs.Field, "Buffer.") {
 		return
 	}
 	h := e.heldMode(c, gs.Mu)
@@ -174,7 +181,14 @@ func (e *Engine) checkGuardSpec(c *Config, gs *GuardSpec, write bool, under *Ter
 	if write {
 		kind = "write"
 	}
-	e.guardViol = append(e.guardViol, Obl{ID: "guard:" + gs.Field + ":" + kind, G: And(c.g, under), Cond: ok,
+	where := "?"
+	if len(c.stack) > 0 {
+		where = c.top().fn.Name()
+		if p := c.top().fn.Parent(); p != nil {
+			where = p.Name() + "/" + where
+		}
+	}
+	e.guardViol = append(e.guardViol, Obl{ID: "guard:" + gs.Field + ":" + kind + "@" + where, G: And(c.g, under), Cond: ok,
 		Pos: fmt.Sprintf("%s %s of %s without %s", e.posOf(c), kind, gs.Field, gs.Mu.Path), Step: e.step})
 }
 
@@ -183,6 +197,9 @@ func (e *Engine) taint(cell *Cell, v Value) {
 	gs := cell.Guard
 	if gs == nil {
 		return
+	}
+	if gs.WriteOnly {
+		gs = &GuardSpec{Mu: gs.Mu, Field: gs.Field + "(contents)"}
 	}
 	switch x := v.(type) {
 	case *RefV:
